@@ -1,7 +1,13 @@
 // Sections added per property (instruction tables etc.).
 #ifndef NV_DUMP_MORE_H
 #define NV_DUMP_MORE_H
+#include "nv_dump_riscv.h"
+#include "nv_dump_cond.h"
+#include "nv_dump_symbols.h"
 static void dump_more()
 {
+  dump_more_symbols();
+  dump_more_cond();
+  dump_more_riscv();
 }
 #endif
